@@ -1,6 +1,13 @@
 import PtnModel.Proofs.AutLen
 import PtnModel.Proofs.AutPaths
+import PtnModel.Proofs.AutCtor
 import PtnModel.Proofs.TreeFinal
+import PtnModel.Proofs.SymDenseGraph
+import PtnModel.Proofs.TreeLevels
+import PtnModel.Proofs.TreeLength
+import PtnModel.Proofs.SymDenseTree
+import PtnModel.Proofs.SymDenseUniform
+import PtnModel.Proofs.OgSimplify
 /-!
 # C17 — operator trees and state automata unfold to graphs with the same meaning
 
@@ -35,8 +42,25 @@ the identities before the start site, `_insert_subtree` for the tree) followed b
 `optrees_sem_presimplify`: the graph before `simplify` is structurally valid and its denotation is the coefficient
 function of `denTreesRaw trees L id` — for every tree and every root-to-leaf path `p` with coefficient `c` the word
 `id^istart ++ p ++ id^(L - istart - |p|)` with coefficient `c`.  `insert_opchain_sem` / `insert_subtree_sem` are the
-two building blocks.  `optrees_sem_partial` is the statement after `simplify`, under the hypothesis that `simplify`
-keeps structural validity and the denotation (C16).
+two building blocks.  `optrees_sem` / `optrees_consistent` are the statements for the returned graph, using the
+theorem `Ptn.Og.simplify_sem` of property C16 (`simplify` keeps validity and the denotation).
+`optrees_consistent_presimplify`, `optrees_length_presimplify`: before `simplify` the graph is layered (start
+node on level 0, end node on level `L`) without dead ends, hence consistent and of length `L`;
+`optrees_length_partial`: length of the returned graph, assuming that `simplify` does not change `length`.
+All statements are conditional on the construction returning (the guards of the code: tree height ≤ `L - istart`,
+matching charges, a leaf at distance 0 is the terminal).
+
+## (3) dense meaning = symbolic meaning
+
+Matrices are exact (`Mat κ`, lists of rows, `numpy.kron` index convention).  Statements are digit-indexed: for digit
+lists `s`, `t` of length `n` with digits `< d` (`IsDigits d n`), `digIdx d s` is the flat index (first digit most
+significant) and `wordEntry opmap w s t = Π_k opmap[w_k][s_k, t_k]` is the entry of the Kronecker product along the
+word `w`.  `OpMapOk opmap d ids`: every id of `ids` is mapped to a `d × d` matrix.  `symSum F S = Σ_(w,c)∈S c · F w`.
+`dense_chain`: `OpChain.as_matrix`; `dense_sym`: the dense meaning `denseOfSym` of any formal sum;
+`dense_tree`: `OpTree.as_matrix` with its `kron` padding (`d ≥ 2`, `id ↦` identity);
+`dense_graph` / `dense_graph_consistent`: `OpGraph.as_matrix` in both directions (modelled as `denseOfSym` of the
+path enumeration `denDir` in that direction) together with `graph_coeff`: the enumeration in either direction has
+the path sums `denF` as coefficients.
 -/
 namespace Ptn.C17
 open Ptn.Og
@@ -62,6 +86,17 @@ theorem AutWellFormed.valid {a : AutOp κ} (h : AutWellFormed a) : AutValid a :=
   cases d
   · exact this.1
   · exact this.2
+
+/-- Well-formedness is what the Python constructors and `is_consistent()` give: if `AutOp.__init__` accepts nodes
+built by `AutOpNode.__init__` (`Node.mk'`, which rejects repeated edge ids) and `is_consistent()` holds, the
+automaton is well-formed. -/
+theorem aut_wellFormed_of_ctor {nodes : List Node} {edges : List (AEdge κ)} {term : List Int} {a : AutOp κ}
+    (h : AutOp.mk' nodes edges term = .ok a)
+    (hn : ∀ n ∈ nodes, ∃ k i o q, Node.mk' k i o q = .ok n) (hc : a.isConsistent = true) : AutWellFormed a := by
+  obtain ⟨h1, h2, h3⟩ := AutOp.mk'_nodup h (fun n hn' => by
+    obtain ⟨k, i, o, q, hk⟩ := hn n hn'
+    exact Node.mk'_nodup hk)
+  exact ⟨h1, h2, h3, hc⟩
 
 /-- **The graph unrolled from an automaton denotes the automaton's path sum.**  If
 `OpGraph.from_automaton(a, L)` returns `g`, then for every word `w` of length `L` the coefficient of `w` in `g`
@@ -153,14 +188,36 @@ theorem optrees_sem_presimplify {trees : List (OpTree κ)} {L id : Int} {g : Gra
 theorem optrees_eq_presimplify_simplify (trees : List (OpTree κ)) (L id : Int) :
     fromOptrees trees L id = fromOptreesPre trees L id >>= Graph.simplify := rfl
 
-/-- **The graph built from a list of operator trees** denotes the sum of the padded trees.
-PARTIAL: under the hypothesis `SimplifyKeeps κ` (property C16: `simplify` keeps structural validity and the
-denotation `denF`), which is not proved here. -/
-theorem optrees_sem_partial (hs : SimplifyKeeps κ) {trees : List (OpTree κ)} {L id : Int} {g : Graph κ}
+/-- **The graph built from a list of operator trees denotes the sum of the trees**, each padded with identities
+before its start site and after its leaves up to the requested length: for every word `w`, the coefficient of `w` in
+the returned graph is its coefficient in `denTreesRaw trees L id`.  The graph is structurally valid (`structOk`)
+with terminals `0`, `1`.  (Uses `Ptn.Og.simplify_sem` of C16 for the final `simplify`.) -/
+theorem optrees_sem {trees : List (OpTree κ)} {L id : Int} {g : Graph κ}
     (h : fromOptrees trees L id = .ok g) :
-    SValid g ∧ g.structOk = true ∧ ∀ w, g.denF w = symCoeff (denTreesRaw trees L id) w := by
-  obtain ⟨sv, sem⟩ := fromOptrees_denF_of_simplify hs h
-  exact ⟨sv, sv.structOk, sem⟩
+    SValid g ∧ g.structOk = true ∧ g.nidTerminal = (0, 1) ∧
+      ∀ w, g.denF w = symCoeff (denTreesRaw trees L id) w := by
+  rw [fromOptrees_eq, Ptn.Dense.bind_ok] at h
+  obtain ⟨gp, hp, hsimp⟩ := h
+  obtain ⟨sv, ht, sem⟩ := fromOptreesPre_denF hp
+  obtain ⟨sv', rel, _⟩ := simplify_sem sv hsimp
+  exact ⟨sv', sv'.structOk, by rw [rel.term, ht], fun w => by rw [rel.den w, sem w]⟩
+
+/-- **The graph built from a list of operator trees, before `simplify`, is consistent**: it passes every clause of
+`is_consistent` (structure and levels), for trees with non-negative start sites. -/
+theorem optrees_consistent_presimplify {trees : List (OpTree κ)} {L id : Int} {g : Graph κ}
+    (h : fromOptreesPre trees L id = .ok g) (hstart : ∀ t ∈ trees, 0 ≤ t.istart) :
+    g.isConsistent = true :=
+  (fromOptreesPre_valid h hstart).isConsistent
+
+/-- **The graph returned by `from_optrees` is consistent** (`is_consistent`, all clauses), for trees with
+non-negative start sites.  (Uses `Ptn.Og.simplify_sem` of C16 for the final `simplify`.) -/
+theorem optrees_consistent {trees : List (OpTree κ)} {L id : Int} {g : Graph κ}
+    (h : fromOptrees trees L id = .ok g) (hstart : ∀ t ∈ trees, 0 ≤ t.istart) :
+    g.isConsistent = true := by
+  rw [fromOptrees_eq, Ptn.Dense.bind_ok] at h
+  obtain ⟨gp, hp, hsimp⟩ := h
+  have v := fromOptreesPre_valid hp hstart
+  exact ((simplify_sem v.1 hsimp).2.2 v).isConsistent
 
 /-! ### non-vacuity -/
 
@@ -172,7 +229,163 @@ def g₁ : Graph ℤ :=
   ⟨[(0, ⟨0, [], [1, 2], 0⟩), (1, ⟨1, [1, 2], [], 0⟩)], [(1, ⟨1, (0, 1), [(5, 2)]⟩), (2, ⟨2, (0, 1), [(0, 1)]⟩)], (0, 1)⟩
 
 example : fromOptreesPre ts₁ 1 0 = .ok g₁ ∧ g₁.denF [5] = 2 ∧ g₁.denF [0] = 1 ∧
-    symCoeff (denTreesRaw ts₁ 1 0) [5] = 2 :=
-  ⟨by decide, by decide, by decide, by decide⟩
+    symCoeff (denTreesRaw ts₁ 1 0) [5] = 2 ∧ (∀ t ∈ ts₁, 0 ≤ t.istart) ∧ g₁.isConsistent = true :=
+  ⟨by decide, by decide, by decide, by decide, by decide, by decide⟩
+
+/-- **The graph built from a non-empty list of operator trees, before `simplify`, has the requested length**
+(`OpGraph.length`: follow first outgoing edges from terminal 0): it is layered with terminal 1 on level `L` and has
+no dead ends. -/
+theorem optrees_length_presimplify {trees : List (OpTree κ)} {L id : Int} {g : Graph κ}
+    (h : fromOptreesPre trees L id = .ok g) (hne : trees ≠ []) (hstart : ∀ t ∈ trees, 0 ≤ t.istart) :
+    g.length = .ok L.toNat :=
+  fromOptreesPre_length h hne hstart
+
+/-- **The graph returned by `from_optrees` has the requested length.**
+PARTIAL: under the hypothesis that `simplify` does not change `length` on consistent graphs, which is not proved
+(property C16 establishes that `simplify` keeps validity, terminals and the denotation, not the length). -/
+theorem optrees_length_partial
+    (hs : ∀ (g g' : Graph κ), Valid g → g.simplify = .ok g' → g'.length = g.length)
+    {trees : List (OpTree κ)} {L id : Int} {g : Graph κ}
+    (h : fromOptrees trees L id = .ok g) (hne : trees ≠ []) (hstart : ∀ t ∈ trees, 0 ≤ t.istart) :
+    g.length = .ok L.toNat := by
+  rw [fromOptrees_eq, Ptn.Dense.bind_ok] at h
+  obtain ⟨gp, hp, hsimp⟩ := h
+  rw [hs gp g (fromOptreesPre_valid hp hstart) hsimp]
+  exact fromOptreesPre_length hp hne hstart
+
+/-- `from_optrees(ts₁, 1, 0)`: `simplify` has merged the two parallel edges -/
+def g₁' : Graph ℤ := ⟨[(0, ⟨0, [], [1], 0⟩), (1, ⟨1, [1], [], 0⟩)], [(1, ⟨1, (0, 1), [(0, 1), (5, 2)]⟩)], (0, 1)⟩
+
+example : fromOptrees ts₁ 1 0 = .ok g₁' ∧ g₁'.denF [5] = 2 ∧ g₁'.isConsistent = true ∧ ts₁ ≠ [] ∧
+    g₁.length = .ok 1 ∧ g₁'.length = .ok 1 :=
+  ⟨by decide, by decide, by decide, by decide, by decide, by decide⟩
+
+/-! ## (3) dense meaning = symbolic meaning -/
+
+/-- **Dense meaning of a chain.**  `OpChain.as_matrix(opmap)` returns (no exception) the `d^n × d^n` matrix with
+the entries `coeff · Π_k opmap[oid_k][s_k, t_k]`: the coefficient times the Kronecker product along the word. -/
+theorem dense_chain (c : OpChain κ) (opmap : OpMap κ) (d : Nat) (hop : OpMapOk opmap d c.oids) :
+    ∃ M, c.asMatrix opmap = .ok M ∧ IsMat M (d ^ c.length) (d ^ c.length) ∧
+      ∀ (s t : List Nat), IsDigits d c.length s → IsDigits d c.length t →
+        M.entry (digIdx d s) (digIdx d t) = c.coeff * wordEntry opmap c.oids s t :=
+  chain_asMatrix_spec c opmap d hop
+
+/-- **Dense meaning of a formal sum** (the reference `denseOfSym` used for trees and graphs): for words of a
+common length `L` the result is the `d^L × d^L` matrix `Σ_(w,c) c · ⊗_k opmap[w_k]`. -/
+theorem dense_sym (opmap : OpMap κ) (d L : Nat) (S : Sym κ)
+    (hS : ∀ p ∈ S, p.1.length = L ∧ OpMapOk opmap d p.1) :
+    ∃ M, denseOfSym opmap (d ^ L) S = .ok M ∧ IsMat M (d ^ L) (d ^ L) ∧
+      ∀ (s t : List Nat), IsDigits d L s → IsDigits d L t →
+        M.entry (digIdx d s) (digIdx d t) = symSum (fun w => wordEntry opmap w s t) S := by
+  obtain ⟨M, hM, hshape, hent⟩ := denseOfSym_spec opmap d L S hS _ (zero_isMat _ _)
+  refine ⟨M, hM, hshape, fun s t hs ht => ?_⟩
+  rw [hent s t hs ht, zero_entry, zero_add]
+  rfl
+
+/-- the dense meaning of the chain's symbolic meaning `denChain` is the matrix of `dense_chain` -/
+theorem dense_chain_sym (c : OpChain κ) (opmap : OpMap κ) (d : Nat) (hop : OpMapOk opmap d c.oids) :
+    ∃ M M', c.asMatrix opmap = .ok M ∧ denseOfSym opmap (d ^ c.length) (denChain c) = .ok M' ∧
+      ∀ (s t : List Nat), IsDigits d c.length s → IsDigits d c.length t →
+        M.entry (digIdx d s) (digIdx d t) = M'.entry (digIdx d s) (digIdx d t) := by
+  obtain ⟨M, hM, _, hent⟩ := dense_chain c opmap d hop
+  obtain ⟨M', hM', _, hent'⟩ := dense_sym opmap d c.length (denChain c)
+    (by intro p hp; simp only [denChain, List.mem_singleton] at hp; subst hp; exact ⟨rfl, hop⟩)
+  refine ⟨M, M', hM, hM', fun s t hs ht => ?_⟩
+  rw [hent s t hs ht, hent' s t hs ht]
+  simp [symSum, denChain]
+
+/-- **Dense meaning of a tree.**  For `d ≥ 2`, an operator map with `d × d` matrices for all operators of the tree
+and the `d × d` identity for `id`: `OpTree.as_matrix` (`_subtree_as_matrix`, including the `kron` padding with
+identities of subtrees of unequal height) returns (no exception) the `d^h × d^h` matrix, `h` the height of the tree,
+whose entries are those of the dense meaning of the padded path sum `denTreeBare` (every root-to-leaf path padded
+with identities after its leaf up to `h`).  A single leaf gives the `1 × 1` identity (`h = 0`). -/
+theorem dense_tree (opmap : OpMap κ) (d : Nat) (id : Int) (hd : 2 ≤ d) (hid : IdOk opmap d id) (T : TNode κ)
+    (hops : ∀ p ∈ T.paths, OpMapOk opmap d p.1) :
+    ∃ M, T.asMatrix opmap = .ok M ∧ IsMat M (d ^ T.height) (d ^ T.height) ∧
+      ∀ s t, IsDigits d T.height s → IsDigits d T.height t →
+        M.entry (digIdx d s) (digIdx d t) = symSum (fun w => wordEntry opmap w s t) (denTreeBare T id) :=
+  (subtree_children_dense opmap d id hd hid).1 T hops
+
+/-- the tree's `as_matrix` agrees entrywise with `denseOfSym` of `denTreeBare` -/
+theorem dense_tree_sym (opmap : OpMap κ) (d : Nat) (id : Int) (hd : 2 ≤ d) (hid : IdOk opmap d id) (T : TNode κ)
+    (hops : ∀ p ∈ T.paths, OpMapOk opmap d p.1) :
+    ∃ M M', T.asMatrix opmap = .ok M ∧ denseOfSym opmap (d ^ T.height) (denTreeBare T id) = .ok M' ∧
+      ∀ s t, IsDigits d T.height s → IsDigits d T.height t →
+        M.entry (digIdx d s) (digIdx d t) = M'.entry (digIdx d s) (digIdx d t) := by
+  obtain ⟨M, hM, _, hent⟩ := dense_tree opmap d id hd hid T hops
+  obtain ⟨I, hI, hIm, _⟩ := hid
+  obtain ⟨M', hM', _, hent'⟩ := dense_sym opmap d T.height (denTreeBare T id) (by
+    intro p hp
+    simp only [denTreeBare, List.mem_map] at hp
+    obtain ⟨q, hq, rfl⟩ := hp
+    have hl := paths_length_le.1 T q hq
+    refine ⟨by simp only [List.length_append, List.length_replicate]; omega, ?_⟩
+    intro o ho
+    simp only [List.mem_append, List.mem_replicate] at ho
+    rcases ho with ho | ⟨_, rfl⟩
+    · exact hops q hq o ho
+    · exact ⟨I, hI, hIm⟩)
+  exact ⟨M, M', hM, hM', fun s t hs ht => by rw [hent s t hs ht, hent' s t hs ht]⟩
+
+/-- **The path enumeration of a graph in either direction has the path sums `denF` as coefficients** (words up to
+the number of nodes, which bounds the length of every path of a consistent graph). -/
+theorem graph_coeff {g : Graph κ} (sv : SValid g) (dir : Bool) (w : Word) (hw : w.length ≤ g.nodes.length) :
+    symCoeff (g.denDir dir) w = g.denF w :=
+  denDir_coeff sv dir w hw
+
+/-- **Dense meaning of a graph.**  `OpGraph.as_matrix(opmap, direction)` (the dense meaning of the path enumeration
+in that direction) is, for a graph all of whose paths have `L` edges, the `d^L × d^L` matrix
+`Σ_w c_w · ⊗_k opmap[w_k]` over the normal form `denDir dir` of the enumeration, whose coefficients are the path
+sums `denF` by `graph_coeff`. -/
+theorem dense_graph {g : Graph κ} (dir : Bool) (opmap : OpMap κ) (d L : Nat)
+    (hwords : ∀ p ∈ g.denDir dir, p.1.length = L ∧ OpMapOk opmap d p.1) :
+    ∃ M, denseOfSym opmap (d ^ L) (g.denDir dir) = .ok M ∧ IsMat M (d ^ L) (d ^ L) ∧
+      ∀ (s t : List Nat), IsDigits d L s → IsDigits d L t →
+        M.entry (digIdx d s) (digIdx d t) = symSum (fun w => wordEntry opmap w s t) (g.denDir dir) :=
+  denseOfSym_denDir dir opmap d L hwords
+
+/-- **Dense meaning of a consistent graph** (`Valid g`: duplicate-free dictionaries and `is_consistent`): all
+enumerated paths have the same number `L` of edges, `as_matrix(opmap, direction)` is the `d^L × d^L` matrix
+`Σ_w c_w · ⊗_k opmap[w_k]` over the enumeration of that direction, and the coefficients `c_w` are the path sums
+`denF w` in both directions. -/
+theorem dense_graph_consistent {g : Graph κ} (v : Valid g) (dir : Bool) (opmap : OpMap κ) (d : Nat)
+    (hop : ∀ p ∈ g.denDir dir, OpMapOk opmap d p.1) :
+    ∃ L M, denseOfSym opmap (d ^ L) (g.denDir dir) = .ok M ∧ IsMat M (d ^ L) (d ^ L) ∧
+      (∀ (s t : List Nat), IsDigits d L s → IsDigits d L t →
+        M.entry (digIdx d s) (digIdx d t) = symSum (fun w => wordEntry opmap w s t) (g.denDir dir)) ∧
+      (∀ w : Word, w.length ≤ g.nodes.length → symCoeff (g.denDir dir) w = g.denF w) := by
+  obtain ⟨L, hL⟩ := denDir_uniform v dir
+  obtain ⟨M, hM, hshape, hent⟩ := dense_graph dir opmap d L (fun p hp => ⟨hL p hp, hop p hp⟩)
+  exact ⟨L, M, hM, hshape, hent, fun w hw => graph_coeff v.1 dir w hw⟩
+
+/-! ### non-vacuity -/
+
+/-- Pauli-like 2×2 integer matrices: `0 ↦ identity`, `1 ↦ [[0,1],[1,0]]`, `2 ↦ [[1,0],[0,-1]]` -/
+def om₀ : OpMap ℤ := [(0, [[1, 0], [0, 1]]), (1, [[0, 1], [1, 0]]), (2, [[1, 0], [0, -1]])]
+
+example : OpMapOk om₀ 2 [0, 1, 2] := by
+  intro o ho
+  simp only [List.mem_cons, List.not_mem_nil, or_false] at ho
+  rcases ho with rfl | rfl | rfl
+  · exact ⟨[[1, 0], [0, 1]], rfl, rfl, by decide⟩
+  · exact ⟨[[0, 1], [1, 0]], rfl, rfl, by decide⟩
+  · exact ⟨[[1, 0], [0, -1]], rfl, rfl, by decide⟩
+
+example : IdOk om₀ 2 0 := by
+  refine ⟨[[1, 0], [0, 1]], rfl, ⟨rfl, by decide⟩, ?_⟩
+  intro a b ha hb
+  have h1 : a = 0 ∨ a = 1 := by omega
+  have h2 : b = 0 ∨ b = 1 := by omega
+  rcases h1 with rfl | rfl <;> rcases h2 with rfl | rfl <;> rfl
+
+/-- leaves at different depths: the `kron` padding of the shorter branch -/
+example : (TNode.mk 0 [(1, 2, .mk 0 []), (2, 1, .mk 0 [(1, 3, .mk 0 [])])] : TNode ℤ).asMatrix om₀ =
+    .ok [[0, 3, 2, 0], [3, 0, 0, 2], [2, 0, 0, -3], [0, 2, -3, 0]] := by decide
+
+example : (⟨[1, 2], [0, 0, 0], 3, 0⟩ : OpChain ℤ).asMatrix om₀ =
+    .ok [[0, 0, 3, 0], [0, 0, 0, -3], [3, 0, 0, 0], [0, -3, 0, 0]] := by decide
+
+example : denseOfSym om₀ 4 (g₀.denDir true) = denseOfSym om₀ 4 (g₀.denDir false) ∧
+    (∀ p ∈ g₀.denDir true, p.1.length = 2) := by decide
 
 end Ptn.C17
